@@ -44,7 +44,7 @@ CHECKS = {
  "C12": ("model_checking", "TLC model checking of IoFaults.tla + exhaustive fault enumeration per input on every entry point, call logs validated by TLC against the I/O contract",
          "IoFaults.tla states the contract over individual sink/source calls (error iff a call failed, accepted bytes always a prefix, complete and flushed on Ok) and is model-checked against a reference write_all pipeline under every fault script; on the real code every fault position (each write as Err and as Ok(0), each flush, each read) of every sample input is enumerated for all decoders, the raw LZMA2 decoder, Stream and all encoder variants, with short-write patterns; the recorded call logs are validated by TLC with the contract as invariant.",
          "5 C12"),
- "C11": ("model_checking", "TLC model checking of Reader.tla / LzmaDecoder.tla / Lzma2.tla + replay with the consumed-bytes comparison on; embedded payloads with trailing bytes through several reader kinds",
+ "C11": ("model_checking", "TLC model checking of Reader.tla / RangeCoderSmall.tla (LockStep) / LzmaDecoder.tla / Lzma2.tla + replay with the consumed-bytes comparison on; embedded payloads with trailing bytes through several reader kinds",
          "The stop rules (size reached, end control byte) are actions of the decoder models and every successful behaviour TLC exports is replayed with the reader position compared against the end of the payload; payloads followed by arbitrary bytes are decoded in place through slices, Cursors, scripted sources and BufReaders of several capacities. The byte position itself (decoder consumption = encoder emission) is range-coder arithmetic and comes from the harness kernel, not from TLA+.",
          "5 C11"),
  "C13": ("model_checking", "TLC model checking of Reader.tla (FragIndependent under every fragment choice) + differential runs under scripted fragmentation with the BufRead protocol log validated by TLC",
@@ -53,7 +53,7 @@ CHECKS = {
  "C14": ("model_checking", "TLC model checking of RawReuse.tla (ResetIsFresh over all operation histories) + real decoder histories compared with new decoders, projections validated by TLC",
          "RawReuse.tla lets a decode leave any used state behind and checks that reset restores the projection of a new decoder; on the real objects seeded histories of valid / corrupt / truncated / property-changing / state-leaning streams and all reset variants are run, every decompress after a reset is repeated on a new object (verdict and bytes must agree) and the projection hook after every call is validated against the specification.",
          "5 C14"),
- "C04": ("model_checking", "TLC model checking of Encoder.tla against the format semantics + TLC validation of the structure parsed from real encoder outputs + differential round trip through three decoders",
+ "C04": ("model_checking", "TLC model checking of Encoder.tla and RangeCoderSmall.tla + TLC validation of the structure parsed from real encoder outputs + differential round trip through three decoders (incl. a corpus of inputs that put the range encoder on its flush-test boundaries)",
          "Encoder.tla maps (input, source fragmentation, option) to the abstract symbol / chunk / field structure; TLC checks for all inputs up to 7 bytes, all options and all fragmentations that the format semantics decode it back to the input and that the container arithmetic is the format's. Real outputs for lengths around 0 and k*64 KiB x content families x fragmentations are parsed back and validated by TLC against that structure, and decoded by lzma-rs, the harness reference decoder and liblzma (when the xz program exists). The range encoder's carry arithmetic is outside TLA+ and is covered by the differential part.",
          "5 C04"),
  "C07": ("model_checking", "TLC invariants for index/arith bounds and termination on the structural models + seeded exploration of all decoding entry points with panic capture, watchdog and counting allocator, outcomes validated by TLC against Totality.tla",
